@@ -68,6 +68,9 @@ pub fn generate(tier: &str, rng: &mut Rng) -> Vec<Spec> {
         let xs: Vec<Rat> = (0..len).map(|k| if k % 97 == 0 { Rat::int(rng.range(-50, 50)) } else { Rat::new(rng.range(-6, 6) as i128, if int { 1 } else { rng.range(1, 3) as i128 }) }).collect();
         v.push(Spec::new("mean").with("N", n).with("ty", if int { "int" } else { "rat" }).with("xs", join_rats(&xs)));
     }
+    // soak: more samples through ONE instance than a 16-bit counter can hold, widths that do not divide 65536 (one run per tier and kind)
+    for n in [3usize] { let xs: Vec<i64> = (0..65_800i64).map(|k| ((k * 7 + k / 5) % 11) - 5).collect();
+        v.push(Spec::new("mean").with("N", n).with("ty", "int").with("tail", 300).with("xs", join(&xs))); }
     add_entry_points(v, rng, &["mean"], 40, |rng: &mut Rng| { let l = rng.range(1, 4); (0..l).map(|k| if k == 0 { rng.range(5, 9).to_string() } else { rng.range(-11, 11).to_string() }).collect::<Vec<_>>().join(",") })
 }
 
@@ -83,6 +86,7 @@ fn run_int<const N: usize>(xs: &[i64], stats: &mut Stats) -> Outcome {
     let mut f: Mean<i64, N> = enter(Mean::default(), stats, |f: &mut Mean<i64, N>, t| { f.filter(t.parse::<i64>().unwrap()); });
     let mut ys = vec![]; let mut panic = false;
     for x in xs { match catch(|| f.filter(*x)) { Ok(y) => ys.push(y), Err(_) => { panic = true; stats.panics += 1; break } } }
+    let ys = tail_of(ys);
     let g = f.into_guts();
     let taps: Vec<i64> = g.taps.iter().cloned().collect();
     Outcome::Case(format!("mk {} true {} {} {} {} {} {}", N, clist(xs, |z| qi(*z)), clist(&ys, |z| qi(*z)), cbool(panic), copt(&g.mean, |z| qi(*z)), clist(&taps, |z| qi(*z)), qi(g.weight)))
